@@ -178,6 +178,32 @@ theorem chunks_u128 : ∀ (l : List Nat) (pre : Bytes), (∀ s ∈ l, s < 2 ^ 12
       have : pre.length + 16 * (i + 1) = pre.length + 16 + 16 * i := by omega
       rw [this]
 
+theorem chunks_nil {α : Type} (n fuel : Nat) : chunks n fuel ([] : List α) = [] := by
+  cases fuel <;> simp [chunks]
+
+/-- a list no longer than the chunk size is one chunk -/
+theorem chunks_single {α : Type} (n : Nat) (l : List α) (h0 : 0 < l.length) (hn : l.length ≤ n) :
+    chunks n l.length l = [l] := by
+  obtain ⟨f, hf⟩ : ∃ f, l.length = f + 1 := ⟨l.length - 1, by omega⟩
+  rw [hf]
+  have hne : l.isEmpty = false := by
+    cases l with
+    | nil => simp at h0
+    | cons a as => rfl
+  simp only [chunks, hne, Bool.false_eq_true, if_false]
+  rw [List.take_of_length_le hn, List.drop_of_length_le hn, chunks_nil]
+
+theorem serOpt_rdnss (lt : Nat) (servers : List Nat) (h0 : 0 < servers.length) (hn : servers.length ≤ 127) :
+    serOpt (.rdnss lt servers) = rdnssOpt lt servers := by
+  have hne : servers.isEmpty = false := by
+    cases servers with
+    | nil => simp at h0
+    | cons a as => rfl
+  have hc : Generated.Ra.rdnssChunk = 127 := by decide
+  simp only [serOpt, hne, Bool.false_eq_true, if_false, hc, show ¬ (127 = 0) by decide]
+  rw [chunks_single 127 servers h0 hn]
+  simp
+
 theorem framed_rdnss (lt : Nat) (servers : List Nat) (hn : servers.length ≤ 127) (hs : ∀ s ∈ servers, s < 2 ^ 128) :
     Framed (.rdnss lt servers) := by
   unfold Framed specOpt
@@ -191,7 +217,7 @@ theorem framed_rdnss (lt : Nat) (servers : List Nat) (hn : servers.length ≤ 12
     have hfl := flatMap_u128_length servers
     have hlt := be_u32 (clamp lt 0xffffffff) (by unfold clamp; omega)
     refine ⟨25, (1 + servers.length * 2) % 256, [0, 0] ++ u32 (clamp lt 0xffffffff) ++ servers.flatMap u128,
-      by simp [serOpt, he], by omega, by simp [u32, hfl]; omega, ?_⟩
+      by rw [serOpt_rdnss lt servers hpos hn]; simp [rdnssOpt], by omega, by simp [u32, hfl]; omega, ?_⟩
     have hblen : ([0, 0] ++ u32 (clamp lt 0xffffffff) ++ servers.flatMap u128).length = 6 + 16 * servers.length := by
       simp [u32, hfl]; omega
     have ch := chunks_u128 servers ([0, 0] ++ u32 (clamp lt 0xffffffff)) hs
@@ -308,7 +334,13 @@ theorem framed_captivePortal (url : Bytes) (hz : ∀ b ∈ url, b ≠ 0) (hlen :
   simp only
   have hb : padTo8 url 2 = url ++ List.replicate ((8 - (url.length + 2) % 8) % 8) 0 := rfl
   have hbl : (padTo8 url 2).length = url.length + (8 - (url.length + 2) % 8) % 8 := by rw [hb]; simp
-  refine ⟨37, (1 + (padTo8 url 2).length / 8) % 256, padTo8 url 2, by simp [serOpt], by rw [hbl]; omega, by rw [hbl]; omega, ?_⟩
+  have hnul : hasNul url = false := by
+    unfold hasNul
+    simp only [List.any_eq_false, beq_iff_eq]
+    exact fun b hb' => hz b hb'
+  have hfit : decide (1 + (padTo8 url 2).length / 8 ≥ 256) = false := by
+    rw [hbl]; simp only [decide_eq_false_iff_not]; omega
+  refine ⟨37, (1 + (padTo8 url 2).length / 8) % 256, padTo8 url 2, by simp [serOpt, hnul, hfit], by rw [hbl]; omega, by rw [hbl]; omega, ?_⟩
   unfold decodeOpt
   simp only [show (37 : Nat) ≠ 1 by decide, show (37 : Nat) ≠ 5 by decide, show (37 : Nat) ≠ 3 by decide,
     show (37 : Nat) ≠ 25 by decide, show (37 : Nat) ≠ 31 by decide, show (37 : Nat) ≠ 38 by decide, if_false, if_true]
@@ -484,9 +516,11 @@ theorem framed_dnssl (lt : Nat) (domains : List Bytes) (hd : ∀ d ∈ domains, 
         have : 1 ≤ (encodeDomain d).length := by rw [encodeDomain_eq]; simp
         omega
     have hlt := be_u32 (clamp lt 0xffffffff) (by unfold clamp; omega)
+    have hfit : decide (1 + (padTo8 (domains.flatMap encodeDomain) 0).length / 8 ≥ 256) = false := by
+      rw [hbl]; simp only [decide_eq_false_iff_not]; omega
     refine ⟨31, (1 + (padTo8 (domains.flatMap encodeDomain) 0).length / 8) % 256,
       [0, 0] ++ u32 (clamp lt 0xffffffff) ++ padTo8 (domains.flatMap encodeDomain) 0,
-      by simp [serOpt, he], by rw [hbl]; omega, by simp only [List.length_append, hbl, u32, List.length_cons, List.length_nil]; omega, ?_⟩
+      by simp [serOpt, he, hfit], by rw [hbl]; omega, by simp only [List.length_append, hbl, u32, List.length_cons, List.length_nil]; omega, ?_⟩
     unfold decodeOpt
     simp only [show (31 : Nat) ≠ 1 by decide, show (31 : Nat) ≠ 5 by decide, show (31 : Nat) ≠ 3 by decide,
       show (31 : Nat) ≠ 25 by decide, if_false, if_true]
@@ -791,5 +825,77 @@ theorem cfgok_options {top : Top} {i : Intf} {ll : Option Bytes} {mtu : Option N
       rw [hs] at ho
       simp only [List.mem_singleton] at ho; subst ho
       exact h.url u hs
+
+
+/-! ### option lengths never wrap, whatever the configuration -/
+
+/-- nothing, or an option whose length octet is its true length in units of eight -/
+def WellFramed (b : Bytes) : Prop := b = [] ∨ ∃ ty l body, b = ty :: l :: body ∧ l ≠ 0 ∧ l < 256 ∧ body.length + 2 = l * 8
+
+theorem chunks_bounds {α : Type} (n : Nat) (hn : 1 ≤ n) : ∀ (fuel : Nat) (l : List α), ∀ c ∈ chunks n fuel l, 1 ≤ c.length ∧ c.length ≤ n := by
+  intro fuel
+  induction fuel with
+  | zero => intro l c hc; simp [chunks] at hc
+  | succ fuel ih =>
+    intro l c hc
+    unfold chunks at hc
+    split at hc
+    · cases hc
+    · rename_i hne
+      rcases List.mem_cons.mp hc with rfl | hc
+      · have : 0 < l.length := by
+          cases l with
+          | nil => simp at hne
+          | cons a as => simp
+        simp only [List.length_take]; omega
+      · exact ih _ c hc
+
+theorem rdnssOpt_wellFramed (lt : Nat) (c : List Nat) (h1 : 1 ≤ c.length) (h2 : c.length ≤ 127) : WellFramed (rdnssOpt lt c) := by
+  right
+  refine ⟨25, (1 + c.length * 2) % 256, [0, 0] ++ u32 (clamp lt 0xffffffff) ++ c.flatMap u128, by simp [rdnssOpt], by omega, by omega, ?_⟩
+  simp only [List.length_append, flatMap_u128_length, u32, List.length_cons, List.length_nil]; omega
+
+/-- **RDNSS**: any number of servers is sent as a sequence of options that each state their true length -/
+theorem rdnss_never_wraps (lt : Nat) (servers : List Nat) :
+    ∃ parts : List Bytes, serOpt (.rdnss lt servers) = parts.flatten ∧ ∀ p ∈ parts, WellFramed p := by
+  have hc : Generated.Ra.rdnssChunk = 127 := by decide
+  by_cases he : servers.isEmpty = true
+  · exact ⟨[], by simp [serOpt, he], by intro p hp; cases hp⟩
+  · refine ⟨(chunks 127 servers.length servers).map (rdnssOpt lt), ?_, ?_⟩
+    · simp only [serOpt, he, Bool.false_eq_true, if_false, hc, show ¬ (127 = 0) by decide, List.flatMap_def]
+    · intro p hp
+      obtain ⟨c, hcm, rfl⟩ := List.mem_map.mp hp
+      have := chunks_bounds 127 (by decide) _ _ c hcm
+      exact rdnssOpt_wellFramed lt c this.1 this.2
+
+/-- **DNSSL**: any list of domains is sent with its true length, or not at all -/
+theorem dnssl_never_wraps (lt : Nat) (domains : List Bytes) : WellFramed (serOpt (.dnssl lt domains)) := by
+  have hc : Generated.Ra.dnsslLengthChecked = true := by decide
+  simp only [serOpt, hc, Bool.true_and]
+  split
+  · left; rfl
+  · split
+    · left; rfl
+    · rename_i hfit
+      simp only [decide_eq_true_eq] at hfit
+      right
+      have h8 : ((padTo8 (domains.flatMap encodeDomain) 0).length + 0) % 8 = 0 := by
+        unfold padTo8; simp only [List.length_append, List.length_replicate]; omega
+      refine ⟨31, (1 + (padTo8 (domains.flatMap encodeDomain) 0).length / 8) % 256,
+        [0, 0] ++ u32 (clamp lt 0xffffffff) ++ padTo8 (domains.flatMap encodeDomain) 0, by simp, by omega, by omega, ?_⟩
+      simp only [List.length_append, u32, List.length_cons, List.length_nil]; omega
+
+/-- **captive portal**: any URL is sent with its true length, or not at all -/
+theorem captive_never_wraps (url : Bytes) : WellFramed (serOpt (.captivePortal url)) := by
+  have hc : Generated.Ra.captiveLengthChecked = true := by decide
+  simp only [serOpt, hc, Bool.true_and]
+  split
+  · left; rfl
+  · rename_i hfit
+    simp only [Bool.or_eq_true, decide_eq_true_eq, not_or] at hfit
+    right
+    have h8 : ((padTo8 url 2).length + 2) % 8 = 0 := by
+      unfold padTo8; simp only [List.length_append, List.length_replicate]; omega
+    exact ⟨37, (1 + (padTo8 url 2).length / 8) % 256, padTo8 url 2, by simp, by omega, by omega, by omega⟩
 
 end Erbium.RaCodec
